@@ -1124,8 +1124,11 @@ impl Scaler for HarfBuzzScaler<'_> {
 
         if points_start != 0 {
             // If we're not the first component, shift our contour end points.
+            // The end points are not validated by this scaler: a malformed
+            // (out of order) end point may exceed the point count, and is
+            // rejected later when the path is built.
             for contour_end in contours.iter_mut() {
-                *contour_end += points_start as u16;
+                *contour_end = contour_end.wrapping_add(points_start as u16);
             }
         }
         Ok(())
